@@ -2,6 +2,7 @@
 Tie shared by C04, C05, C16, C19: facts regenerated from pkg/bech32 and its internal base32
 package agree with the model (Iota/Model/Bech32.lean) the theorems are about.
 -/
+import Iota.Tie.Bech32CharsCode
 import Iota.Gen.Bech32
 import Iota.Tie.Expect
 import Iota.Model.Bech32
@@ -43,18 +44,16 @@ theorem decodedLen_eq (n : Nat) : Gen.Bech32.DecodedLen n = (Bech32.decodedLen n
 
 /-- the hand-written model was written from exactly this code (`internal/base32`: `Encode`, `Decode`, `EncodedLen`,
 `DecodedLen` are not pinned by text any more: they are translated as code and tied to the model for all inputs in
-`Iota/Tie/Base32Code.lean`) -/
+`Iota/Tie/Base32Code.lean`; likewise chars.go — `newEncoding`, `encoding.encode`, `encoding.decode` — in
+`Iota/Tie/Bech32CharsCode.lean`) -/
 theorem src :
     Gen.Bech32.src_bech32_Encode = Expect.Bech32_src_bech32_Encode ∧
     Gen.Bech32.src_bech32_Decode = Expect.Bech32_src_bech32_Decode ∧
     Gen.Bech32.src_bech32_isValidHRPChar = Expect.Bech32_src_bech32_isValidHRPChar ∧
     Gen.Bech32.src_bech32_validateCase = Expect.Bech32_src_bech32_validateCase ∧
     Gen.Bech32.src_bech32_firstUpper = Expect.Bech32_src_bech32_firstUpper ∧
-    Gen.Bech32.src_bech32_firstLower = Expect.Bech32_src_bech32_firstLower ∧
-    Gen.Bech32.src_bech32_newEncoding = Expect.Bech32_src_bech32_newEncoding ∧
-    Gen.Bech32.src_bech32_encoding_encode = Expect.Bech32_src_bech32_encoding_encode ∧
-    Gen.Bech32.src_bech32_encoding_decode = Expect.Bech32_src_bech32_encoding_decode :=
-  ⟨rfl, rfl, rfl, rfl, rfl, rfl, rfl, rfl, rfl⟩
+    Gen.Bech32.src_bech32_firstLower = Expect.Bech32_src_bech32_firstLower :=
+  ⟨rfl, rfl, rfl, rfl, rfl, rfl⟩
 
 /-- everything else the package declares (imports, constants, types, variables, build constraints and the functions not
 pinned one by one) is unchanged too: no declaration of the modelled packages can change without a tie theorem failing. -/
@@ -115,5 +114,33 @@ theorem code_base32_no_panic_at_call_sites (dst : List (BitVec 8)) (src : List U
       Gen.Bech32.base32.Decode dst (bv src) ≠ none) :=
   ⟨fun h1 h2 => (by rw [(encode_caller dst src h1 h2).1]; exact fun h => nomatch h),
    fun h1 h2 => decode_caller dst src h1 h2⟩
+
+/-! ### chars.go translated AS CODE = the model (proofs: `Iota/Tie/Bech32CharsCode.lean`)
+`newEncoding` is a constructor: its translation returns the two fields (`enc`, `decMap`) of the struct it builds. -/
+open Iota.Tie.Bech32Code (bv) in
+open Iota.Tie.Bech32CharsCode in
+/-- the package variable `charset = newEncoding("qpzry9x8gf2tvdw0s3jn54khce6mua7l")` holds the model's tables; `newEncoding`
+panics exactly for alphabets that are not 32 bytes long -/
+theorem code_newEncoding :
+    Gen.Bech32.chars.newEncoding srcCharset = some (encTable, decTable) ∧
+    (∀ cs : List (BitVec 8), cs.length < 2 ^ 63 → (Gen.Bech32.chars.newEncoding cs = none ↔ cs.length ≠ 32)) :=
+  ⟨newEncoding_charset, newEncoding_none_iff⟩
+open Iota.Tie.Bech32Code (bv) in
+open Iota.Tie.Bech32CharsCode in
+/-- `charset.encode`: the model's `charsetEncode` on 5-bit symbols; an index-out-of-range panic for a symbol ≥ 32 -/
+theorem code_charsetEncode (src : List UInt8) (hlen : src.length < 2 ^ 63) :
+    Gen.Bech32.chars.encoding_encode encTable (bv src) =
+      if src.all (fun s => decide (s.toNat < 32)) then some (bv (Bech32.charsetEncode src)) else none :=
+  encode_eq src hlen
+open Iota.Tie.Bech32Code (bv) in
+open Iota.Tie.Bech32CharsCode in
+/-- `charset.decode` on ALL byte strings (non-ASCII and invalid UTF-8 included; Go ranges over the rune starts): never
+panics; the model's `charsetDecode`, the error case returning the symbols decoded before the bad character -/
+theorem code_charsetDecode (s : List UInt8) (hlen : s.length < 2 ^ 63) :
+    Gen.Bech32.chars.encoding_decode decTable (bv s) =
+      match Bech32.charsetDecode s with
+      | .ok ds => some (bv ds, none)
+      | .error n => some (bv ((s.take n).map Bech32.decMap), some "ErrInvalidCharacter") :=
+  decode_eq s hlen
 
 end Iota.Tie.Bech32
